@@ -140,8 +140,8 @@ var c11AlphabetExt = []string{"load", "load", "edit-invalidate", "edit-clear", "
 
 func init() {
 	Register(&Prop{
-		ID:   "C11",
-		Rule: "histories of load(root_i) / edit a file (new include row and content) + InvalidateFile / edit without invalidation followed by ClearCache / ClearCache (random histories also: LoadFromContent of an unsaved buffer, and depth limits 1-4 set on both loaders) on ONE shared loader over 30 fixed 4-file include graphs (chains >= 3 deep, diamonds, cycles below the root); after every load the result (file set, file order, content projection of every journal, load errors with their directive lines) is compared with a fresh loader on the same disk state. All histories of length <= 4 over the 4-operation alphabet are enumerated per graph (thorough: all 30 graphs x 340; quick: a seeded slice), random histories of length 5-6 beyond; server level: open / save included file / change sequences followed by references and completion probes compared with a fresh server on the same disk state. Non-trivial = history containing a load after an edit or a second load; distinct by history+graph hash.",
+		ID:    "C11",
+		Rule:  "histories of load(root_i) / edit a file (new include row and content) + InvalidateFile / edit without invalidation followed by ClearCache / ClearCache (random histories also: LoadFromContent of an unsaved buffer, and depth limits 1-4 set on both loaders) on ONE shared loader over 30 fixed 4-file include graphs (chains >= 3 deep, diamonds, cycles below the root); after every load the result (file set, file order, content projection of every journal, load errors with their directive lines) is compared with a fresh loader on the same disk state. All histories of length <= 4 over the 4-operation alphabet are enumerated per graph (thorough: all 30 graphs x 340; quick: a seeded slice), random histories of length 5-6 beyond; server level: open / save included file / change sequences followed by references and completion probes compared with a fresh server on the same disk state. Non-trivial = history containing a load after an edit or a second load; distinct by history+graph hash.",
 		Notes: []string{"parse errors of included files are excluded (the server drops them)", "every history ends with a load so that its effect is observed"},
 		Cases: func(tier string) int64 {
 			a, b, s := c11Counts(tier)
